@@ -65,6 +65,7 @@ deriving Repr, DecidableEq
     out of the source (in source order). -/
 inductive Op
   | createTemp                       -- tmp, err := os.CreateTemp(filepath.Dir(s.path), base+".*.tmp")
+  | openFixed (trunc : Bool)         -- tmp, err := os.OpenFile(<fixed temp name>, O_WRONLY|O_CREATE[|O_TRUNC], ..)
   | write (encoded : Bool)           -- tmp.Write(x); `encoded` = x is the result of state.Encode(st)
   | fsync                            -- tmp.Sync()
   | close                            -- tmp.Close()
@@ -81,6 +82,7 @@ structure Proc where
   tmp : Option Name := none          -- tmpPath
   fd : Option Ino := none            -- the open temp file
   keep : Bool := false               -- keepTemp
+  off : Nat := 0                     -- file offset of the open temp file
 deriving Repr, DecidableEq
 
 def setInode (f : Ino → Inode) (i : Ino) (v : Inode) : Ino → Inode :=
@@ -99,13 +101,28 @@ def exec (t : Name) (new : Bytes) (s : FS × Proc) : Op → FS × Proc
     let fs := s.1
     ({ fs with inodes := setInode fs.inodes fs.next ⟨[], 0⟩, next := fs.next + 1,
                pending := fs.pending ++ [.link t fs.next] },
-     { s.2 with tmp := some t, fd := some fs.next })
+     { s.2 with tmp := some t, fd := some fs.next, off := 0 })
+  | .openFixed trunc =>
+    -- a DETERMINISTIC temp name without O_EXCL: a stale temp file of an earlier
+    -- crashed save is re-opened (and overwritten from offset 0), not replaced
+    let fs := s.1
+    match fs.view t with
+    | none =>
+      ({ fs with inodes := setInode fs.inodes fs.next ⟨[], 0⟩, next := fs.next + 1,
+                 pending := fs.pending ++ [.link t fs.next] },
+       { s.2 with tmp := some t, fd := some fs.next, off := 0 })
+    | some i =>
+      ({ fs with inodes := if trunc then setInode fs.inodes i ⟨[], 0⟩ else fs.inodes },
+       { s.2 with tmp := some t, fd := some i, off := 0 })
   | .write enc =>
     match s.2.fd with
     | none => s
     | some i =>
       let n := s.1.inodes i
-      ({ s.1 with inodes := setInode s.1.inodes i ⟨n.data ++ (if enc then new else garbage), n.synced⟩ }, s.2)
+      let bytes := if enc then new else garbage
+      -- write at the file offset (a fresh file: append)
+      let n' : Inode := ⟨n.data.take s.2.off ++ bytes ++ n.data.drop (s.2.off + bytes.length), min n.synced s.2.off⟩
+      ({ s.1 with inodes := setInode s.1.inodes i n' }, { s.2 with off := s.2.off + bytes.length })
   | .fsync =>
     match s.2.fd with
     | none => s
@@ -172,6 +189,7 @@ def Sys.toString : Sys → String
 
 def sysOf : Op → List Sys
   | .createTemp => [.creat]
+  | .openFixed _ => [.creat]
   | .write _ => [.write]
   | .fsync => [.fsync]
   | .close => [.close]
